@@ -19,7 +19,7 @@ SPACE = [
     ("contraction", ["segmented", "SP", "gen-ss", "gen-pd", "3-primitives"]),
     ("shell_order", ["grouped", "reversed", "interleaved", "rotated", "perm2", "perm3", "skip-first-center"]),
     ("conventions", ["own", "fchk", "molden", "wfn", "mwfn", "horton2", "cca", "orca", "scr1", "scr2"]),
-    ("mo", ["restricted", "rohf", "rohf-triplet", "beta-hole", "fractional", "aminusb", "aminusb-neg", "aminusb-zero", "aminusb-balanced", "unrestricted", "unrestricted-na>nb", "occupied-only", "irreps", "unrestricted-occupied-only"]),
+    ("mo", ["restricted", "rohf", "rohf-triplet", "beta-hole", "fractional", "aminusb", "aminusb-neg", "aminusb-zero", "aminusb-balanced", "unrestricted", "unrestricted-na>nb", "unrestricted-fractional-beta", "occupied-only", "irreps", "unrestricted-occupied-only"]),
     ("extras", ["none", "rdm-scf", "rdm-scf+spin", "rdm-post", "energy-none", "title-none", "atcharges", "mo_spin", "fortran-arrays", "strided-arrays"]),
 ]
 
@@ -158,6 +158,9 @@ def build(case, target, seed=0):
         ca = common.lowdin_orthonormal(s, common.int_matrix(nb, norba, seed))
         cb = common.lowdin_orthonormal(s, common.int_matrix(nb, norbb, seed + 5))
         occs = np.concatenate([[1.0] * na + [0.0] * (norba - na), [1.0] * nb_ + [0.0] * (norbb - nb_)])
+        if mokind == "unrestricted-fractional-beta" and na >= 2:
+            # alpha aufbau with na electrons; beta: na-1 full orbitals and a fractional one inside the alpha-occupied range
+            occs = np.concatenate([[1.0] * na + [0.0] * (norba - na), [1.0] * (na - 1) + [0.4] + [0.0] * (norbb - na)])
         energies = np.concatenate([-1.5 + 0.25 * np.arange(norba), -1.375 + 0.25 * np.arange(norbb)])
         mo = MolecularOrbitals("unrestricted", norba, norbb, occs, np.hstack([ca, cb]), energies)
     else:
